@@ -57,7 +57,7 @@ m = {
  "setup_cmd": "./run.sh build",
  "hooks": {"guard": "verif", "enable": "none needed: the checks read /repo's source; no instrumentation is compiled in", "baseline_off_cmd": json.load(open("/root/.vp/BASELINE.json"))["cmd"], "source_commits": [], "add_only": True},
  "engines": [{"name": "shovelcheck", "path": "/verif/checker", "serves_properties": [c["property_id"] for c in checks],
-              "kind_free_text": "repository-specific static analyser over go/packages + go/types + go/ssa (x/tools v0.29.0): CFG path rules, value-flow slices, lockset, bounds prover, embedded-SQL reader; thorough tier adds a mutant matrix applied to a scratch copy of the current tree"}],
+              "kind_free_text": "repository-specific static analyser over go/packages + go/types + go/ssa (x/tools v0.29.0): CFG path rules, value-flow slices, lockset, bounds prover, embedded-SQL reader; rules are evaluated on an inlined view of each anchor function (single-use helpers), with dataflow forms for bounds, loop ranges and path facts; thorough tier adds a matrix applied to scratch copies of the current tree: own mutants, seeded changes from independent sub-agents (must be reported) and behaviour-preserving refactorings from independent sub-agents (must stay silent, on every property)"}],
  "checks": checks,
  "not_applicable": na,
  "notes": "All claims are level 'other': each check decides structural necessary conditions of its property on the resolved program (every path, every caller, independent of run-time values) and says in level_note what it does not decide. Exit 2 / CHECKER-ERROR = the check could not decide (unresolved anchor, rule lost its sites, unkilled mutant); it is never reported as 'held'. Genuine defects found are in known_findings.json (fixed: entries record fix: commits in /repo).",
